@@ -86,6 +86,8 @@ func c06Paths() []string {
 			"$[?(@.a == 'x' || !@.b)]", "$.c[?(@.a == 1)].b", "$..[?(@.a)]", "$..[?(@.a == 1)]", "$.list[?(@.v == 1)].id", "$.list[?(@.v == $.x)]", "$.list[?(@.v == '1')]", "$.list[?(@.v)]", "$.list[?(!@.v)].id",
 			"$.a.f1()", "$.*.f1()", "$.a.g1()", "$.*.g2()", "$[?(@.a.f2() == 2)]", "$[?(@.*.g1() > 1)]", "$.c[*].a.f2().f1()", "$..a.g1()", "$.b.c[?(@ > 1)]", "$.b.c[?(@ == 2 || @ == 3)]",
 			"$[*,0]", "$[1,*]", "$[*,*]", "$[*,0].a", "$[0,*,-1].b", "$[?(@.a > 100)].b", "$[-3:].a", "$[::-20].a", "$[?(@.b == $[3].b)].a", "$.list[?(@.v == $.x)].id", "$.list[?(@.v != $.x)].id", "$..[?(@.v == $.x)]", "$[?($.a == 3)]", "$[?($.d == 'y')]",
+			// "fre": a shared parsed function whose user function calls that very parsed function again
+			"$[*].fre()", "$..a.fre()", "$.c[?(@.a.fre() == 1)]", "$.b.c[*].fre().f1()",
 			// functions that themselves call the library; literal on the left of an ordering comparison with a root path
 			"$.b.fnest()", "$.c[*].fnest()", "$[*].fnest()", "$.f.g.fnest()", "$.a.gnest()", "$.list[*].id.gnest()", "$[?(@.a.fnest())]", "$.c[?(@.b.fnest() == 3)]",
 			"$.list[?(1 < $.x)]", "$.list[?(2 > $.x)].id", "$.list[?(1 <= $.x)]", "$[?(3 >= $.a)]", "$.list[?(1 < $.x && @.v)]",
@@ -187,7 +189,21 @@ func checkC06(c *Case, st *Stats) string {
 	for i := 0; i < nshared; i++ {
 		p, k := next(len(paths)), 1+next(2)
 		cfg, _ := cfgs.get(k)
-		f, err := jsonpath.Parse(paths[p], cfg)
+		var f func(interface{}) ([]interface{}, error)
+		if strings.Contains(paths[p], ".fre()") {
+			// the function re-enters f (on a one-element document whose value tells it to stop there):
+			// no state is shared between the goroutines for this, the recursion ends by the value
+			own := BuildConfig(nil, true, c06Accessor(k))
+			own.SetFilterFunction("fre", func(v interface{}) (interface{}, error) {
+				if f != nil && !onlyReentryMarkers(v) {
+					_, _ = f([]interface{}{"re-entered", map[string]interface{}{"a": "re-entered"}})
+				}
+				return v, nil
+			})
+			cfg = own
+		}
+		var err error
+		f, err = jsonpath.Parse(paths[p], cfg)
 		if err != nil {
 			return fmt.Sprintf("harness: corpus path %q does not parse: %v", paths[p], err)
 		}
@@ -461,6 +477,30 @@ func checkC06(c *Case, st *Stats) string {
 		})
 	}
 	return ""
+}
+
+// onlyReentryMarkers reports whether v belongs to the document handed to a re-entrant call (the
+// marker string, or containers holding nothing else): the recursion ends there.
+func onlyReentryMarkers(v interface{}) bool {
+	switch t := v.(type) {
+	case string:
+		return t == "re-entered"
+	case []interface{}:
+		for _, c := range t {
+			if !onlyReentryMarkers(c) {
+				return false
+			}
+		}
+		return true
+	case map[string]interface{}:
+		for _, c := range t {
+			if !onlyReentryMarkers(c) {
+				return false
+			}
+		}
+		return true
+	}
+	return false
 }
 
 func containsFilter(p string) bool {
